@@ -92,6 +92,13 @@ CHECKS.update({
    note="Format 0 is reconstructed from the documented 0.16->0.17 expansion; mutations inside trait definitions are not asserted (not listed by the property)."),
 })
 
+CHECKS.update({
+ "C17": dict(cat="exploration", design="DESIGN.md §3 C17",
+   technique="property-based testing: generated values of generated and catalogue types, invariant check over the introspection tree, model-free stateful generation of navigation command sequences",
+   text="For generated values the introspection tree is walked to depth 4 (introspect_len == number of consecutive children, nothing beyond), and generated sequences of Introspector commands (expand by real or made-up key, select nth in/out of range, up, nothing; child limits none/0/1/2/3/usize::MAX) must never panic and every result must satisfy total_index(i).is_some() <=> i < total_len().",
+   note="Stable toolchain only. Types without an Introspect impl (Cell<T>, io::Error) are skipped."),
+})
+
 NOT_YET = {
 }
 
